@@ -499,7 +499,7 @@ def observe(t, root: Path, files, report):
     for fn, info in files.items():
         after = (root / fn).read_text()
         n = len(info["sites"])
-        rew = [i for i in range(1, n + 1) if info["stmts"][i - 1] not in after]
+        rew = [i for i in range(1, n + 1) if (t.check(after, i) if t.check else info["stmts"][i - 1] not in after)]
         changes = [(c["lineNumber"], [f["id"] for f in c["findings"]], [f["rule"]["id"] for f in c["findings"]]) for c in chg.get(fn, [])]
         obs["files"][fn] = {"rewritten": rew, "changes": changes, "changed": after != info["src"]}
     return obs
@@ -510,11 +510,12 @@ def e2e_case_term(ctx, t, fn, info, entries, o):
     results = [{"ident": j, "cls": S.RCLASS[t.tool], "rule": e["rule"], "locs": [(e["file"], e["loc"])],
                 "fid": finding_id_for(ctx, t.tool, e)} for j, e in enumerate(open_entries)]
     site_ids = sorted(info["sites"])
-    return ("(mke2e %s %s %s %s %s %s %s %s %s %s %s %s %s)" % (
+    return ("(mke2e %s %s %s %s %s %s %s %s %s %s %s %s %s %s %s %s)" % (
         t.ovr, S.RCLASS[t.tool], clist([cstr(t.rule)], "str"), cstr(fn), c_results(results),
         clist([c_node(x) for x in info["tested"]], "node"), clist([c_node(x) for x in info["cands"]], "node"),
         clist([cpair(cN(i), cZ(info["sites"][i]["line"])) for i in site_ids], "N * Z"),
-        cbool(t.lost_when_enclosed), cN(t.entry_span),
+        cbool(t.lost_when_enclosed), clist([cpair(cZ(a), cZ(b)) for a, b in t.entry], "Z * Z"), clist([cZ(a) for a in t.own], "Z"),
+        cbool(t.ignores_results), cbool(t.only_last),
         clist([cN(i) for i in info["expected"]], "N"), clist([cN(i) for i in o["rewritten"]], "N"),
         clist([cpair(cZ(c[0]), clist([cstr(x) for x in c[1]], "str")) for c in o["changes"]], "Z * list str")))
 
@@ -524,7 +525,11 @@ def classify_sites(t, info, o, model_ok=True):
     written - the object of the `_refuted` theorems - predicts the observation exactly (model_ok)."""
     if not model_ok:
         return "kf_site_selection"
+    if t.ignores_results and info["expected"] and set(info["expected"]) <= set(o["rewritten"]):
+        return f"kf_results_not_consulted:{t.id.split('/')[-1]}"
     missing = [i for i in info["expected"] if i not in o["rewritten"]]
+    if t.only_last and len(info["expected"]) > 1 and o["rewritten"] == [max(info["expected"])]:
+        return f"kf_single_fix_per_file:{t.id.split('/')[-1]}"
     if t.ovr == "FFuzzyCall" and t.lost_when_enclosed and missing and set(o["rewritten"]) <= set(info["expected"]) and \
             all(info["sites"][i].get("wrapped") for i in missing):
         return f"kf_fuzzy_enclosing_call_selected:{t.id.split('/')[-1]}"
@@ -539,10 +544,16 @@ def classify_sites(t, info, o, model_ok=True):
 def classify_findings(t, info, o, entries, fn, model_ok=True):
     if not model_ok:
         return "kf_change_findings"
+    if t.ignores_results and info["expected"]:
+        return f"kf_results_not_consulted:{t.id.split('/')[-1]}"
+    if t.only_last and len(info["expected"]) > 1:
+        return f"kf_single_fix_per_file:{t.id.split('/')[-1]}"
+    if all(d not in t.own for d, _ in t.entry) and info["expected"]:
+        return f"kf_change_entry_off_site_line:{t.id.split('/')[-1]}"
     lines = [info["sites"][i]["line"] for i in info["expected"]]
     if len(set(lines)) < len(lines):
         return "kf_same_line_sites"
-    if t.entry_span > 1 and any(info["sites"][i]["line"] + k in lines for i in info["expected"] for k in range(1, t.entry_span)):
+    if any(info["sites"][i]["line"] + d in lines for i in info["expected"] for d, _ in t.entry if d != 0 and d not in t.own):
         return f"kf_extra_entry_on_following_site_line:{t.id.split('/')[-1]}"
     if t.ovr == "FFuzzyCall" and t.acts_on_any_selected and any(info["sites"][i].get("wrapped") for i in info["expected"]):
         return f"kf_fuzzy_enclosing_call_selected:{t.id.split('/')[-1]}"
@@ -635,6 +646,8 @@ def run_e2e(ctx):
     by_id = {t.id: t for t in S.TEMPLATES}
     # corpus first: minimised witnesses of the _refuted theorems, then the same scenarios at fresh random layouts
     for f in sorted((core.VERIF / "corpus" / "C06").glob("*.json")):
+        if json.loads(f.read_text()).get("op") != "e2e":
+            continue        # e.g. the CodeQL witness, replayed by run_codeql
         jobs.append(job_from_payload(ctx, json.loads(f.read_text()), idx)); idx += 1
         jobs[-1]["scenario"] = "corpus:" + f.stem
     for tid, scen in (("sonar:python/secure-random", "same_line"), ("semgrep:python/harden-pyyaml", "same_line"),
@@ -733,8 +746,198 @@ def run_e2e(ctx):
         shutil.rmtree(job["root"], ignore_errors=True)
 
 
+# ------------------------------------------------------------------------------------------------
+# (3) CodeQL: the SARIF reader's locations and a CodeQL-driven codemod, in process
+# ------------------------------------------------------------------------------------------------
+CODEQL_RULE = "py/insecure-randomness"
+
+
+def codeql_sarif(codeql_results, foreign_results):
+    def res(e):
+        loc = {"physicalLocation": {"artifactLocation": {"uri": e["file"], "uriBaseId": "%SRCROOT%"}}}
+        if e.get("region") is not None:
+            loc["physicalLocation"]["region"] = e["region"]
+        return {"ruleId": e["rule"], "message": {"text": "m"}, "locations": [loc]}
+    return {"version": "2.1.0", "runs": [
+        {"tool": {"driver": {"name": "Semgrep OSS"}}, "results": [res(e) for e in foreign_results]},
+        {"tool": {"driver": {"name": "CodeQL", "semanticVersion": "2.15", "rules": []}}, "results": [res(e) for e in codeql_results]}]}
+
+
+def region_of(loc, drop_end_line=True, drop_start_column=False):
+    rg = {"startLine": loc[0], "startColumn": loc[1], "endLine": loc[2], "endColumn": loc[3]}
+    if drop_end_line and loc[0] == loc[2]:
+        del rg["endLine"]           # CodeQL omits endLine when the region is on one line
+    if drop_start_column:
+        del rg["startColumn"]       # ... and startColumn when it is 1
+    return rg
+
+
+def run_codeql(ctx):
+    import dataclasses
+    rng = ctx.rng
+    from codemodder.codemods.base_codemod import Metadata, ReviewGuidance, ToolMetadata, ToolRule
+    from codemodder.codemods.codeql import CodeQLSarifFileDetector
+    from codemodder.codeql import CodeQLLocation, CodeQLResultSet
+    from codemodder.context import CodemodExecutionContext
+    from codemodder.project_analysis.python_repo_manager import PythonRepoManager
+    from codemodder.providers import load_providers
+    from codemodder.registry import load_registered_codemods
+    from codemodder.sarifs import detect_sarif_tools
+    from core_codemods.api.core_codemod import SASTCodemod
+    from core_codemods.secure_random import SecureRandom
+
+    registry = load_registered_codemods()
+    n_codeql = sum(1 for c in registry.codemods if c.id.startswith("codeql:"))
+    ctx.count("registry:codeql_codemods", n_codeql)
+    if n_codeql:
+        ctx.mismatch("C06 end-to-end coverage", f"the registry now holds {n_codeql} codeql:* codemods; they have no site template", {"op": "coverage"})
+    else:
+        ctx.notes.append("the registry holds no codeql:* codemod (only the SARIF detector and reader exist): the CodeQL path is driven in "
+                         "process by a codemod built with the public constructors (SASTCodemod + CodeQLSarifFileDetector + the real "
+                         "secure-random transformer), not through the CLI")
+
+    # (a) CodeQLLocation.from_sarif on generated regions
+    cases, meta = [], []
+    for i in range(150 if ctx.quick() else 1500):
+        if rng.random() < 0.1:
+            rg = None
+        else:
+            sl = rng.randint(0, 9)
+            rg = {"startLine": sl}
+            if rng.random() < 0.75:
+                rg["startColumn"] = rng.randint(1, 30)
+            if rng.random() < 0.5:
+                rg["endLine"] = sl + rng.randint(0, 2)
+            if rng.random() < 0.8:
+                rg["endColumn"] = rng.randint(1, 40)
+        sl_ = {"physicalLocation": {"artifactLocation": {"uri": "a.py"}}}
+        if rg is not None:
+            sl_["physicalLocation"]["region"] = rg
+        L = CodeQLLocation.from_sarif(sl_)
+        vals = (L.start.line, L.start.column, L.end.line, L.end.column)
+        obs = None if any(v is None for v in vals) else vals
+        c_rg = "None" if rg is None else "(Some (mkregion %s %s %s %s))" % (
+            cZ(rg["startLine"]), copt(cZ(rg["startColumn"]) if "startColumn" in rg else None, "Z"),
+            copt(cZ(rg["endLine"]) if "endLine" in rg else None, "Z"), copt(cZ(rg["endColumn"]) if "endColumn" in rg else None, "Z"))
+        cases.append(cpair(c_rg, copt(None if obs is None else cpair(cZ(obs[0]), cZ(obs[1]), cpair(cZ(obs[2]), cZ(obs[3]))), "Z * Z * (Z * Z)")))
+        meta.append((rg, vals))
+        ctx.count("codeql_region:" + ("none" if rg is None else "+".join(sorted(k for k in rg if k != "startLine")) or "startLine only"))
+        ctx.case({"codeql_region": [rg, vals]}, nontrivial_key=("cq", json.dumps(rg, sort_keys=True)) if rg else None)
+    bad = core.eval_bad_indices(ctx, "c06_cq", IMPORTS, "cq_case", cases, ["cq_model_ok", "cq_spec_ok"])
+    for i in bad["cq_model_ok"]:
+        ctx.mismatch("CodeQLLocation.from_sarif vs Model.Location.codeql_loc", f"region {meta[i][0]} -> {meta[i][1]}", {"op": "codeql_region", "case": meta[i]})
+    if bad["cq_spec_ok"]:
+        rg, vals = meta[bad["cq_spec_ok"][0]]
+        ctx.violation("kf_codeql_missing_start_column", f"CodeQLLocation.from_sarif gives a location with a None column for the region {rg} "
+                      f"(SARIF: startColumn defaults to 1): {vals}", {"op": "codeql_region", "region": rg, "observed": vals,
+                                                                   "expected": "start column 1", "theorem": "C06_codeql_location"})
+
+    # (b) a CodeQL-driven codemod over all subsets of sites, a foreign run in the same file, a result without region
+    base_t = [t for t in S.TEMPLATES if t.id == "sonar:python/secure-random"][0]
+    t = dataclasses.replace(base_t, id="codeql:python/secure-random", tool="semgrep", rule=CODEQL_RULE)
+
+    class CodeQLCodemod(SASTCodemod):
+        @property
+        def origin(self):
+            return "codeql"
+
+    def make_codemod():
+        return CodeQLCodemod(metadata=Metadata(name="secure-random", summary="s", review_guidance=ReviewGuidance.MERGE_AFTER_REVIEW, description="d",
+                                               tool=ToolMetadata(name="CodeQL", rules=[ToolRule(id=CODEQL_RULE, name=CODEQL_RULE)])),
+                             transformer=SecureRandom.transformer, detector=CodeQLSarifFileDetector(), requested_rules=[CODEQL_RULE])
+
+    def apply(proj, sarif_path):
+        m = detect_sarif_tools([sarif_path])
+        cm = make_codemod()
+        cx = CodemodExecutionContext(proj, False, False, registry, load_providers(), PythonRepoManager(proj), [], [], dict(m), 1)
+        cm.apply(cx)
+        r = cx.compile_results([cm])[0]
+        return dict(m), {"results": [json.loads(r.model_dump_json())]}
+
+    cases, meta = [], []
+    for rnd in range(2 if ctx.quick() else 6):
+        n = rng.choice([2, 3])
+        root = ctx.scratch / f"codeql_{rnd}"
+        proj = root / "proj"
+        proj.mkdir(parents=True)
+        files, entries = build_project(ctx, t, n, proj, "subsets")
+        cq, foreign = [], []
+        for e in entries:
+            (cq if True else foreign).append({**e, "region": region_of(e["loc"])})
+        for fn, info in files.items():
+            for i in info["sites"]:
+                if i not in info["expected"] and rng.random() < 0.7:
+                    # the same rule, the same site, but in a run of another tool: must not drive the CodeQL codemod
+                    loc = S.tool_location("semgrep", info["sites"][i]["reported"])
+                    foreign.append({"rule": CODEQL_RULE, "file": fn, "region": region_of(loc, drop_end_line=False)})
+            if rng.random() < 0.5:
+                cq.append({"key": "whole-file", "rule": CODEQL_RULE, "file": fn, "region": None, "loc": (0, -1, 0, -1)})
+        rng.shuffle(cq)
+        sf = root / f"results_{ctx.seed}_{rnd}.sarif"
+        sf.write_text(json.dumps(codeql_sarif(cq, foreign)))
+        tools, report = apply(proj, sf)
+        if sorted(tools) != ["codeql", "semgrep"]:
+            ctx.mismatch("detect_sarif_tools", f"a SARIF file with a Semgrep run and a CodeQL run was attributed to {sorted(tools)}", {"op": "codeql"})
+        # what the real reader files for the CodeQL run: the model's results are built from these locations
+        rsq = CodeQLResultSet.from_sarif(sf)
+        read = [(r.rule_id, str(l.file), (l.start.line, l.start.column, l.end.line, l.end.column)) for d in rsq.values() for rs_ in d.values()
+                for r in rs_ for l in r.locations]
+        want = sorted((e["rule"], e["file"], tuple(e["loc"])) for e in cq)
+        if sorted(read) != want:
+            ctx.mismatch("CodeQLResultSet.from_sarif", f"the reader filed {sorted(read)[:4]}..., the CodeQL run holds {want[:4]}...", {"op": "codeql"})
+        o = observe(t, proj, files, report)
+        job = {"t": t, "n": n, "scenario": "codeql", "root": root, "proj": proj, "files": files, "entries": cq, "rf": sf}
+        if o["failed"] or o["unfixed"]:
+            ctx.violation("kf_unexpected_failure", f"CodeQL-driven secure-random: failedFiles={o['failed']} unfixed={o['unfixed']}", replay_payload(job))
+        for fn, info in files.items():
+            of = o["files"][fn]
+            cases.append(e2e_case_term(ctx, t, fn, info, cq, of))
+            meta.append((job, fn, info, of))
+            ctx.count(f"codeql_e2e:subset_size:{len(info['expected'])}of{len(info['sites'])}")
+            k = len(info["expected"])
+            ctx.case({"codeql": fn, "S": info["expected"], "rewritten": of["rewritten"], "changes": of["changes"]},
+                     nontrivial_key=("codeql", info["src"], tuple(info["expected"])) if k else None, sample=0 < k < len(info["sites"]))
+    bad = core.eval_bad_indices(ctx, "c06_cqe2e", IMPORTS, "e2e_case", cases, ["e2e_model_ok", "e2e_sites_ok", "e2e_entries_ok", "e2e_discipline_ok"], chunk=60)
+    model_bad = set(bad["e2e_model_ok"])
+    for name, cls in (("e2e_model_ok", None), ("e2e_discipline_ok", None), ("e2e_sites_ok", "kf_site_selection"), ("e2e_entries_ok", "kf_change_findings")):
+        for i in bad[name]:
+            job, fn, info, of = meta[i]
+            what = f"CodeQL-driven secure-random {fn}: S={info['expected']} rewritten={of['rewritten']} changes={[(c[0], c[1]) for c in of['changes']]}"
+            if cls is None:
+                ctx.mismatch(f"CodeQL-driven codemod vs Model.Location ({name})", what, {**replay_payload(job, fn), "observed": of})
+            else:
+                ctx.violation(cls, what + " (a foreign run, a foreign rule and a result without region must not change anything)",
+                              {**replay_payload(job, fn), "observed": of})
+
+    # (c) a region as CodeQL writes it for column 1: no startColumn
+    root = ctx.scratch / "codeql_nosc"
+    proj = root / "proj"
+    proj.mkdir(parents=True)
+    src = "import random\nrandom.randint(0, 1)\nv2 = random.random()\n"
+    (proj / "a.py").write_text(src)
+    sf = root / f"nosc_{ctx.seed}.sarif"
+    sf.write_text(json.dumps(codeql_sarif([{"rule": CODEQL_RULE, "file": "a.py", "region": {"startLine": 2, "endColumn": 21}}], [])))
+    _, report = apply(proj, sf)
+    after = (proj / "a.py").read_text()
+    res = report["results"][0]
+    fixed = "secrets.SystemRandom().randint(0, 1)" in after and "v2 = random.random()" in after
+    ctx.case({"codeql_no_start_column": {"failed": res.get("failedFiles"), "after": after}}, nontrivial_key=("codeql_nosc",))
+    predicted_fixed = (ctx.tables or {}).get("codeql_start_column") == "ScOne"
+    if fixed != predicted_fixed:
+        ctx.mismatch("CodeQL region without startColumn vs Model.Location.codeql_loc", f"table says {(ctx.tables or {}).get('codeql_start_column')}, "
+                     f"site fixed={fixed}, failedFiles={res.get('failedFiles')}", {"op": "codeql_nosc"})
+    if not fixed:
+        ctx.violation("kf_codeql_missing_start_column",
+                      f"a CodeQL result whose region has no startColumn (column 1: `random.randint(0, 1)` at the start of line 2): the reported site is "
+                      f"not rewritten; failedFiles={res.get('failedFiles')} unfixedFindings={[(u.get('lineNumber'), u.get('reason')) for u in res.get('unfixedFindings') or []]} "
+                      f"(TypeError: None - 1 in Result.match_location)",
+                      {"op": "codeql_nosc", "project": core.b64tree({"a.py": src}), "sarif": json.loads(sf.read_text()),
+                       "expected": "line 2 rewritten, one change entry at line 2 with the finding", "theorem": "C06_codeql_location"})
+
+
 def run(ctx: core.Ctx):
     run_pure(ctx)
+    run_codeql(ctx)
     run_e2e(ctx)
 
 
@@ -758,6 +961,12 @@ def replay(ctx, body):
             print(fn, "S =", info["expected"], "| rewritten now:", o["files"][fn]["rewritten"], "| changes now:",
                   [(c[0], c[1]) for c in o["files"][fn]["changes"]])
         print("recorded observation:", body.get("observed"), "| expected:", body.get("expected"))
+        return 0
+    if op in ("codeql_nosc", "codeql_region"):
+        from codemodder.codeql import CodeQLLocation
+        rg = body.get("region") or {"startLine": 2, "endColumn": 21}
+        L = CodeQLLocation.from_sarif({"physicalLocation": {"artifactLocation": {"uri": "a.py"}, "region": rg}})
+        print("CodeQLLocation.from_sarif now:", (L.start.line, L.start.column, L.end.line, L.end.column), "| expected:", body.get("expected"))
         return 0
     print(json.dumps(body, indent=1)[:3000])
     return 0
